@@ -178,6 +178,9 @@ def truth(v: V) -> Optional[bool]:
     return None
 
 
+_LOCAL_FUNCS: Dict[int, ast.AST] = {}
+
+
 class Interp:
     """Hooks (all optional):
     on_name(name, state) -> V | None        for names not in env
@@ -378,6 +381,10 @@ class Interp:
         if isinstance(e, ast.Subscript):
             obj = self.eval(e.value, st)
             key = self.eval(e.slice, st)
+            if isinstance(obj, R) and obj.kind == "nt" and isinstance(key, K) and isinstance(key.v, int):
+                names_ = obj.fields["__fields__"].v
+                if -len(names_) <= key.v < len(names_):
+                    return obj.fields[names_[key.v]]
             if isinstance(obj, K) and isinstance(obj.v, (tuple, bytes, str)) and isinstance(key, K) and isinstance(key.v, int):
                 try:
                     x = obj.v[key.v]
@@ -505,13 +512,11 @@ class Interp:
 
     # ---- functions defined inside the interpreted function (def / lambda) ----------------------------
     def _local_function(self, node: ast.AST, st: State) -> V:
-        if not hasattr(self, "_locals_by_id"):
-            self._locals_by_id = {}
-        self._locals_by_id[id(node)] = node
+        _LOCAL_FUNCS[id(node)] = node  # process-wide: a lambda stored in a module constant is evaluated by another interpreter
         return R("localfunc", node=K(id(node)))
 
     def _call_local(self, f: R, args: List[V], kwargs: Dict[str, V], st: State) -> V:
-        node = getattr(self, "_locals_by_id", {}).get(f.fields["node"].v)
+        node = _LOCAL_FUNCS.get(f.fields["node"].v)
         if node is None:
             return U("unknown local function")
         a = node.args
@@ -555,6 +560,8 @@ class Interp:
             return sorted(it.v, key=repr)
         if isinstance(it, R) and it.kind == "list":
             return list(it.fields["items"])
+        if isinstance(it, R) and it.kind == "nt":
+            return [it.fields[n] for n in it.fields["__fields__"].v]
         if isinstance(it, R) and it.kind == "dict":
             return [k for k, _ in it.fields["items"]]
         if isinstance(it, R) and it.kind == "dict_items":
@@ -707,9 +714,18 @@ class Interp:
             return None
         if tail in ("OrderedDict", "WeakKeyDictionary", "WeakValueDictionary", "Counter") and not args and not kwargs:
             return st.alloc("dict", {})
-        if tail == "defaultdict" and len(args) <= 1:
+        if tail == "defaultdict" and len(args) <= 2:
             fac = args[0].name.split(":")[-1] if args and isinstance(args[0], S) else "none"
-            return st.alloc("defaultdict", ("dd", fac, {}))
+            init: Dict[Any, Any] = {}
+            if len(args) == 2:
+                a1 = args[1]
+                if isinstance(a1, Ref) and a1.kind in ("dict", "defaultdict"):
+                    init = dict(st.dict_of(a1))
+                elif isinstance(a1, R) and a1.kind == "dict" and "items" in a1.fields:
+                    init = dict(a1.fields["items"])
+                else:
+                    return None
+            return st.alloc("defaultdict", ("dd", fac, init))
         if fname == "len" and len(args) == 1 and isinstance(args[0], Ref):
             o = st.deref(args[0])
             return K(len(o) if isinstance(o, list) else len(st.dict_of(args[0])))
@@ -1010,7 +1026,10 @@ class Interp:
                 for t, x in zip(target.elts[si + 1:], items[len(items) - after:]):
                     self._assign(t, x, st)
         elif isinstance(target, (ast.Tuple, ast.List)):
-            if isinstance(v, K) and isinstance(v.v, tuple) and len(v.v) == len(target.elts):
+            if isinstance(v, R) and v.kind == "nt" and len(v.fields["__fields__"].v) == len(target.elts):
+                for t, n in zip(target.elts, v.fields["__fields__"].v):
+                    self._assign(t, v.fields[n], st)
+            elif isinstance(v, K) and isinstance(v.v, tuple) and len(v.v) == len(target.elts):
                 for t, x in zip(target.elts, v.v):
                     self._assign(t, x if isinstance(x, V) else K(x), st)
             elif isinstance(v, R) and v.kind == "elem":
